@@ -253,10 +253,10 @@ def install2(R):
           ensures=[("frame", "fs_unchanged()")],
           raises={"AnyError": dict(ensures=["fs_unchanged()"])},
           notes="next(self.results): loads lazily through _load (verified) ; reads the file system only")
-    R.add(K + "Reaper.__exit__", cls="Reaper", result="none", props=["C12"],
+    R.add(K + "Reaper.__exit__", cls="Reaper", result="V", props=["C12"],
           types={"exception_type": "V", "exception_value": "V", "traceback": "V"},
           modifies=["self.results"],
-          ensures=[("frame", "fs_unchanged()")],
+          ensures=[("frame", "fs_unchanged()"), ("never_swallows_an_exception_of_the_reap", "not truthy(result)")],
           raises={"XYZError": dict(ensures=["fs_unchanged()"]), "AnyError": dict(ensures=["fs_unchanged()"])},
           on_raise=[("fs_untouched", "fs_unchanged()")])
 
